@@ -16,7 +16,8 @@ CLAIMS = {
              '(decode(encode(xs)) == xs for every non-empty list of 62-bit integers, every u32 difference lies in the domain); both 256/64-entry tables '
              'are proved equal to the alphabet.',
         note=_TB + 'str::bytes and i64::checked_shl are assumed by contract. Values with magnitude >= 2^62 (13-digit overflows) are only proved panic-free. '
-             'The canonical-text half (encode(decode(s)) == s) is proved at the spec level for canonical strings; see evidence.not_covered if absent.',
+             'The canonical-text half (encode(decode(s)) == s) is proved for texts that are canonical ON THE DIGITS (spec/vlq_canonical.rs: groups of at most 13 digits, continuation bit on all but the last digit of a group, '
+             'no zero most-significant digit in a multi-digit group, no lone "B" = -0, 13th digit below 8), and that description is proved equivalent to "is the reference encoding of a non-empty list of 62-bit values" (lemma_canonical_iff_syn).',
         design_ref='DESIGN.md 5 C11'),
     'C06': dict(
         text='Unbounded proof of the error-iff-malformed postcondition of the real VLQ decoder (foreign byte, cut-off value, 14th digit, empty input) '
@@ -249,7 +250,7 @@ NOT_COVERED = {
     'C02': ['the six `let` lines of decode_regular that unpack the raw document (checked textually, not verified)', 'termination of the decode_index / decode_common recursion (bounded by serde_json)', 'decode_hermes'],
     'C03': ['as_raw_sourcemap field plumbing and the serde skip_serializing_if attributes', 'index-map documents (sections array): bounded only'],
     'C07': ['document plumbing (as_raw_sourcemap writes the key only when a range token exists; decode_regular hands the strings to the loop): bounded stand-in rmi_roundtrip; the token-level round trip with flags is proved (lemma_document_roundtrip_with_ranges)'],
-    'C11': ['an independent syntactic characterisation of canonical texts (canonical is defined as the image of the reference encoder)'],
+    'C11': ['values of magnitude >= 2^62 (13-digit overflows) are only proved panic-free'],
     'C12': ['the JSON layer and the base64 reader themselves (uninterpreted functions of the bytes; their chunking independence is assumed): bounded stand-in header runs the real ones', 'SourceView-level and writer-side entry points (to_writer, to_data_url)'],
     'C13': ['"serialisation writes raw names plus root" (as_raw_sourcemap)'],
     'C04': ['rewrite / flatten as token producers are covered through into_sourcemap / SourceMap::new (proved); adjust_mappings through its own clause ens_result_ordered_by_generated_position'],
